@@ -243,8 +243,12 @@ def run_cond(case, out, stats):
                 stats["notify_n_lt_waiters"] += 1
             # a fresh zombie may still sit in the real queue and absorb a notification that it passes on later
             fresh = [z for z, c in zombies.items() if sim.now() - c <= 2]
-            if fresh and (all_ or n > 0):
-                credits.extend([sim.now()] * (len(fresh) if all_ else min(n, len(fresh))))
+            # (tasks_waiting is public: it bounds how many cancelled waiters can still have been queued)
+            present = max(0, before - len(queue))
+            ncred = min(len(fresh), present) if all_ else min(n, len(fresh), present)
+            if ncred > 0:
+                stats["credit_created"] += 1
+                credits.extend([sim.now()] * ncred)
             for _ in range(k):
                 a = queue.pop(0)
                 marked[a] = sim.now()
@@ -482,7 +486,7 @@ def run_case(case) -> Outcome:
         body = run_event(case, out, stats)
     else:
         stats = {"notify_n_lt_waiters": 0, "marked_waiter_cancelled": 0, "pass_on": 0, "cancel_around_notify": 0,
-                 "credit_used": 0, "credit_redated": 0}
+                 "credit_used": 0, "credit_redated": 0, "credit_created": 0}
         body = run_cond(case, out, stats)
     _res, err, _sim = run_sim(case["config"], body)
     if err is not None:
